@@ -149,6 +149,17 @@ Inductive rin :=
 | RinPkt (mine : bool) (items : list Z)   (* a packet; mine: for the channel observed (else: for an id not in the map) *)
 | RinFail.                                  (* Packet.ReadFrom fails with an error that is not io.EOF *)
 
+(* What a packet handed to Channel.WritePacket yields AFTER the closed check (RLock; if closed { return }): a
+   header-only packet (Header.Length = 8 - acknowledgements of SETUP / CLOSE, whatever its type and EOM bit) is passed
+   into packageCh directly as ONE HeaderOnlyPackage; a packet with a body goes into the receive queue and yields the
+   packages that can be parsed now (none for a partial package; at EOM possibly a synthetic final DONE).  Either way
+   the items are sent to packageCh one by one (RHold). *)
+Inductive pkt :=
+| PHdr (eom : bool) (h : Z)
+| PBody (eom : bool) (parsed : list Z).
+Definition pkt_items (p : pkt) : list Z := match p with PHdr _ h => [h] | PBody _ l => l end.
+Definition rin_pkt (mine : bool) (p : pkt) : rin := RinPkt mine (pkt_items p).
+
 Inductive rpc :=
 | RTop                      (* for { if ctx.Err() != nil { return } *)
 | RRead                     (* packet.ReadFrom *)
@@ -222,7 +233,8 @@ Definition reader_step (s : sys) : option sys :=
   | RChk items => Some (set_r s (if closed s then RUnlock else RHold items))
   | RHold [] => Some (set_r s RUnlock)
   | RHold (x :: r) =>
-      if zlen (pq s) <? pcap s
+      if closed s then None            (* Close has set packageCh to nil: a send on a nil channel blocks for ever *)
+      else if zlen (pq s) <? pcap s
       then Some (mkS (closed s) (pq s ++ [x]) (pcap s) (rd s) (wpend s) (wheld s) (registered s) (cerr s) (ccap s) (conn_done s) (tclosed s) (tfail s)
                      (RHold r) (incoming s) (cp s) (kind0 s) (conn_close s) (reply s) (cfail s))
       else None                                                                    (* parked on the full package queue, read lock held *)
@@ -386,6 +398,13 @@ Definition set_conn_done (s : sys) : sys :=
 Definition set_tfail (s : sys) : sys :=
   mkS (closed s) (pq s) (pcap s) (rd s) (wpend s) (wheld s) (registered s) (cerr s) (ccap s) (conn_done s) (tclosed s) true
       (rp s) (incoming s) (cp s) (kind0 s) (conn_close s) (reply s) (cfail s).
+Definition set_tclosed (s : sys) : sys :=
+  mkS (closed s) (pq s) (pcap s) (rd s) (wpend s) (wheld s) (registered s) (cerr s) (ccap s) (conn_done s) true (tfail s)
+      (rp s) (incoming s) (cp s) (kind0 s) (conn_close s) (reply s) (cfail s).
+(* somebody takes every error out of the connection's error queue *)
+Definition drain_cerr (s : sys) : sys :=
+  mkS (closed s) (pq s) (pcap s) (rd s) (wpend s) (wheld s) (registered s) 0 (ccap s) (conn_done s) (tclosed s) (tfail s)
+      (rp s) (incoming s) (cp s) (kind0 s) (conn_close s) (reply s) (cfail s).
 Definition add_incoming (s : sys) (l : list rin) : sys :=
   mkS (closed s) (pq s) (pcap s) (rd s) (wpend s) (wheld s) (registered s) (cerr s) (ccap s) (conn_done s) (tclosed s) (tfail s)
       (rp s) (incoming s ++ l) (cp s) (kind0 s) (conn_close s) (reply s) (cfail s).
@@ -393,6 +412,11 @@ Definition add_incoming (s : sys) (l : list rin) : sys :=
 (* what a consumer's NextPackage sees of the system *)
 Definition nstate_of (s : sys) (ctx_done : bool) : nstate :=
   mkN (closed s) (pq s) [] (cerr s) 0 ctx_done (conn_done s).
+
+(* Channel.WritePacket called directly (not by the reader goroutine) with these items: the caller is at the RLock *)
+Definition direct_write (s : sys) (items : list Z) : sys := set_r s (RLockCh items).
+Definition in_write_packet (s : sys) : bool :=
+  match rp s with RLockCh _ | RChk _ | RHold _ | RUnlock => true | _ => false end.
 
 (* a goroutine outside the system that held the read lock (a consumer parked in NextPackage) returns and releases it *)
 Definition release (s : sys) : sys :=
